@@ -219,6 +219,9 @@ func (g *gen) perturb(in *inst) event {
 		}
 		return event{"A", f}
 	case 1:
+		if r.Chance(0.5) {
+			return one(fmt.Sprintf("%d=n/0", k))
+		}
 		return one(fmt.Sprintf("%d=x/%d", k, r.Pick(2)))
 	case 2:
 		if len(ms) > 0 {
@@ -261,7 +264,8 @@ func (g *gen) hangReplica(in *inst) event {
 	if len(cand) > 0 {
 		k = cand[r.Pick(len(cand))]
 	}
-	silent := r.Chance(0.6)
+	mode := r.Pick(10) // 0..4 silent, 5..6 answers not-synced, 7..9 up but the namespace is not loaded (404)
+	silent := mode < 5
 	if silent {
 		g.httpDn[k] = true
 	}
@@ -269,6 +273,10 @@ func (g *gen) hangReplica(in *inst) event {
 	for pid := 0; pid < g.pnum; pid++ {
 		if silent {
 			f = append(f, fmt.Sprintf("%d@%d=!", pid, k))
+			continue
+		}
+		if mode >= 7 {
+			f = append(f, fmt.Sprintf("%d@%d=n/0", pid, k))
 			continue
 		}
 		info := storedInfo(in, pid)
@@ -477,8 +485,13 @@ func (g *gen) script(in *inst) {
 			return
 		}
 		bal := func(in *inst) event { return event{"B", []string{"", ""}} }
-		g.queue = []func(in *inst) event{allUp, conv(false), check, check, bal, conv(false), bal, conv(false), tick(6), check, check, bal,
-			conv(false), check, bal}
+		if r.Chance(0.4) {
+			// a current replica is up and registered but not serving the partition when the balance round wants to add
+			g.queue = []func(in *inst) event{allUp, conv(false), check, check, hang, bal, bal, conv(false), bal, conv(false), tick(6), check, check, bal}
+		} else {
+			g.queue = []func(in *inst) event{allUp, conv(false), check, check, bal, conv(false), bal, conv(false), tick(6), check, check, bal,
+				conv(false), check, bal}
+		}
 	default: // decommission a node that holds a replica
 		if !g.has("K") || !g.has("P") {
 			return
@@ -495,8 +508,12 @@ func (g *gen) script(in *inst) {
 			return event{"K", []string{fmt.Sprint(k)}}
 		}
 		proc := func(in *inst) event { return event{"P", []string{"", ""}} }
-		g.queue = []func(in *inst) event{allUp, conv(false), check, mark, proc, conv(false), proc, conv(false), tick(6), check, proc,
-			conv(false), proc, proc, proc}
+		if r.Chance(0.4) {
+			g.queue = []func(in *inst) event{allUp, conv(false), check, mark, hang, proc, proc, conv(false), proc, conv(false), tick(6), check, proc, proc}
+		} else {
+			g.queue = []func(in *inst) event{allUp, conv(false), check, mark, proc, conv(false), proc, conv(false), tick(6), check, proc,
+				conv(false), proc, proc, proc}
+		}
 	}
 }
 
@@ -594,7 +611,13 @@ func (g *gen) next1(in *inst, kind string) event {
 		if len(cand) > 0 {
 			k = cand[r.Pick(len(cand))]
 		}
-		return event{"W", []string{fmt.Sprint(pid), fmt.Sprint(k), "", ""}}
+		w := event{"W", []string{fmt.Sprint(pid), fmt.Sprint(k), "", ""}}
+		if r.Chance(0.3) {
+			// first a current replica stops serving the partition, then the add-and-wait runs
+			g.queue = append([]func(in *inst) event{func(in *inst) event { return w }}, g.queue...)
+			return g.hangReplica(in)
+		}
+		return w
 	case "X":
 		return event{"X", []string{fmt.Sprint(1 + r.Pick(2))}}
 	case "O":
